@@ -137,7 +137,7 @@ def make_equivariance(n, d, kind):
 
     def replay(m, label, v):
         rng = np.random.RandomState(0)
-        x = rng.standard_t(4, size=(40, d)) * 0.1 + 0.5
+        x = rng.standard_t(2, size=(200, d)) * 0.1 + 0.5  # heavy tails: the nu update stays finite
         if kind == "affine":
             a = np.array([float(m.get(f"a{j}", 2.0)) for j in range(d)])
             a = np.where(np.abs(a) < 1e-3, 2.0, a)
@@ -149,10 +149,27 @@ def make_equivariance(n, d, kind):
             y = x[:, perm]
         m1, S1, n1 = fit_mvstud(x)
         m2, S2, n2 = fit_mvstud(y)
+        ok1 = None
+        for iters in (1, 2, 3):  # the relation must hold after every iteration, not only at the fixed point
+            try:
+                import io, contextlib
+                with contextlib.redirect_stdout(io.StringIO()):
+                    p1, q1, r1 = fit_mvstud(x, max_iter=iters)
+                    p2, q2, r2 = fit_mvstud(y, max_iter=iters)
+                good = np.allclose(p2, a * p1[perm] + b, rtol=1e-6, atol=1e-9) and np.allclose(q2, np.outer(a, a) * q1[np.ix_(perm, perm)], rtol=1e-5)
+                if not good:
+                    ok1 = (iters, p1.tolist(), p2.tolist())
+                    break
+            except Exception:
+                pass
+        if ok1 is not None:
+            return {"reproduced": True, "signature": f"fit_mvstud:not-equivariant:{kind}", "payload": {"a": a.tolist(), "b": b.tolist(), "iterations": ok1[0]},
+                    "what": f"fit_mvstud(max_iter={ok1[0]}) on 200 t-distributed points vs their image under x -> {a.tolist()}*x + {b.tolist()} (perm {perm}): "
+                            f"location {ok1[1]} -> {ok1[2]} is not the image of the location"}
         ok = np.allclose(m2, a * m1[perm] + b, rtol=1e-5, atol=1e-8) and np.allclose(S2, np.outer(a, a) * S1[np.ix_(perm, perm)], rtol=1e-4) and \
             (math.isclose(n1, n2, rel_tol=1e-3) or (math.isinf(n1) and math.isinf(n2)))
         return {"reproduced": not ok, "signature": f"fit_mvstud:not-equivariant:{kind}", "payload": {"a": a.tolist(), "b": b.tolist(), "nu": [n1, n2]},
-                "what": f"fit_mvstud on 40 t-distributed points vs their image under x -> {a.tolist()}*x + {b.tolist()} (perm {perm}): "
+                "what": f"fit_mvstud on 200 t-distributed points vs their image under x -> {a.tolist()}*x + {b.tolist()} (perm {perm}): "
                         f"location {m1.tolist()} -> {m2.tolist()}, dof {n1} vs {n2}"}
 
     return Obligation(f"equivariance-{kind}-n{n}-d{d}", harness, replay=replay, encodes=[fit_mvstud],
